@@ -21,7 +21,7 @@ RULE = ("grid leg: representative bin tables (one per class) with n<=4 bins x EV
         "other at the SAME URI in one process. Oracle: the input itself (pixels()[:] lists exactly the input records once each in order; "
         "matrix(balance=False) dense and sparse == symmetric completion / stored matrix; info returns metadata and assembly), "
         "plus schema validator V on every file. Non-trivial: >=1 pixel stored. Distinct by construction.")
-EXTRA_LEGS = 'idtypes: bin-id columns of every integer dtype on tables just beyond the point where bin1*n_bins+bin2 leaves the dtype (13 bins for int8 ... 65,600 for uint32), rows sorted / reversed / dict / chunks / reversed chunks with ensure_sorted through the one- and two-pass route, values of both signs; binsform: the bin table handed over with other row labels, coordinate dtypes, chromosome-column types and extra columns; million: one 1,051,975-pixel matrix read back around record 1e6.'
+EXTRA_LEGS = 'valuelimits: values at and one beyond the maximum of the stored dtype given in wider / unsigned input columns (stored exactly or refused), three routes; idtypes: bin-id columns of every integer dtype on tables just beyond the point where bin1*n_bins+bin2 leaves the dtype (13 bins for int8 ... 65,600 for uint32), rows sorted / reversed / dict / chunks / reversed chunks with ensure_sorted through the one- and two-pass route, values of both signs; binsform: the bin table handed over with other row labels, coordinate dtypes, chromosome-column types and extra columns; million: one 1,051,975-pixel matrix read back around record 1e6.'
 BOUNDS = {"quick": "grid: BTrep(3,4) tables, all upper patterns n<=4 on 2 tables per n (others: structured), all square patterns n<=3 on 1 table per n; forms: 16 base points",
           "thorough": "grid: all upper patterns n<=4 on every BTrep(3,4) table, all square n<=3 on every table, structured n=5 on every BT(3,5) class; forms: 40 base points"}
 ASSUMPTIONS = ["values are small integers / dyadic rationals, exact in every dtype used; dtype identity of what comes back is not compared",
@@ -78,6 +78,8 @@ def units(tier):
     # one stored matrix with more than 1,000,000 pixels (1450 bins, dense upper triangle; the library builds its row index in blocks of
     # 1e6 records): the rows around record 1,000,000 and both ends read back through matrix() windows and the pixel table
     yield {"leg": "million"}
+    # values at and just beyond what the stored column can hold, given in a wider or an unsigned column: stored exactly or refused
+    yield {"leg": "valuelimits"}
     # bin-id columns of every integer dtype on tables just large enough that bin1*n_bins+bin2 leaves the dtype (anything computed
     # from the ids in their own dtype wraps there), rows given sorted / reversed / as a dict; count values of both signs
     for dt, n in (("int8", 13), ("uint8", 17), ("int16", 190), ("uint16", 260), ("int32", 46400), ("uint32", 65600), ("int64", 13), ("uint64", 13)):
@@ -614,6 +616,57 @@ def _binsform(R, b, only):
             scratch.rm(p)
 
 
+def _valuelimits(R, only):
+    import cooler
+    bins = alpha.table_bins(((2, 2), (2,)), "chr")
+    bdf = build.bins_df(bins)
+    cases = []
+    for indt, store, top in (("uint32", None, 2 ** 31 - 1), ("int64", None, 2 ** 31 - 1), ("uint64", "int64", 2 ** 63 - 1), ("uint16", "int16", 2 ** 15 - 1),
+                             ("uint8", "int8", 127), ("int64", "uint16", 2 ** 16 - 1), ("uint64", "uint32", 2 ** 32 - 1), ("int32", "uint8", 255)):
+        for delta in (0, 1):
+            cases.append((indt, store, top + delta))
+    for indt, store in (("int64", "uint16"), ("int32", "uint8"), ("int16", "uint32")):
+        cases.append((indt, store, -1))                      # a negative value into an unsigned column
+    R.add("states")
+    R.add("traces")
+    for k, (indt, store, val) in enumerate(cases):
+        for route in ("frame", "chunks", "unordered"):
+            inner = {"input_dtype": indt, "stored_dtype": store or "default(int32)", "value": val, "route": route}
+            if only is not None and only != inner:
+                continue
+            R.order = (R.order[0], k)
+            R.ev(1, 1)
+            R.add("transitions")
+            R.cls("valuelimits")
+            info = np.iinfo(store or "int32")
+            fits = info.min <= val <= info.max
+            d = {"bin1_id": np.array([0, 0, 1], dtype=np.int64), "bin2_id": np.array([0, 2, 1], dtype=np.int64), "count": np.array([1, val, 3], dtype=indt)}
+            kw = {"dtypes": {"count": np.dtype(store)}} if store else {}
+            p = scratch.fresh()
+            try:
+                try:
+                    if route == "frame":
+                        cooler.create_cooler(p, bdf, pd.DataFrame(d), **kw)
+                    elif route == "chunks":
+                        cooler.create_cooler(p, bdf, iter([{c: v[:2] for c, v in d.items()}, {c: v[2:] for c, v in d.items()}]), ordered=True, **kw)
+                    else:
+                        cooler.create_cooler(p, bdf, iter([pd.DataFrame({c: v[2:] for c, v in d.items()}), pd.DataFrame({c: v[:2] for c, v in d.items()})]), ordered=False, mergebuf=2, **kw)
+                    raised = None
+                except Exception as e:
+                    raised = e
+                if raised is not None:
+                    if fits:
+                        R.mismatch("create-raises:" + type(raised).__name__, inner, f"value fits the stored dtype: {raised!s:.200}")
+                    else:
+                        R.cls("valuelimits:refused")
+                    continue
+                got = [int(x) for x in cooler.Cooler(p).pixels()[:]["count"].tolist()]
+                if got != [1, val, 3]:
+                    R.mismatch("pixel-values!=input", inner, f"stored {got} for input [1, {val}, 3] ({'fits' if fits else 'does not fit'} the stored dtype)")
+            finally:
+                scratch.rm(p)
+
+
 def _million(R, only):
     import cooler
     n = 1450
@@ -746,6 +799,9 @@ def run(unit, R, tier, only=None):
     leg = unit["leg"]
     if leg == "idtypes":
         _idtypes(R, unit, only)
+        return
+    if leg == "valuelimits":
+        _valuelimits(R, only)
         return
     if leg == "million":
         _million(R, only)
